@@ -3,6 +3,7 @@ package fsloop
 import (
 	"runtime"
 
+	"github.com/goatcms/goatcore/varutil/verifhook"
 	"github.com/goatcms/goatcore/workers/jobsync"
 )
 
@@ -17,11 +18,13 @@ type Consumer struct {
 func (consumer *Consumer) Loop() {
 	defer consumer.pool.Done()
 	for {
+		verifhook.Yield("fsloop.consumer.poll")
 		if consumer.lifecycle.IsKilled() {
 			return
 		}
 		if len(consumer.loopData.chans.dirChan) == 0 &&
 			len(consumer.loopData.chans.fileChan) == 0 {
+			verifhook.Yield("fsloop.consumer.gap")
 			if consumer.lifecycle.Step() == StepClose {
 				return
 			}
